@@ -1,16 +1,24 @@
 (* wire encoding of C16 cases; exported functions are [x_*] : val -> val
    case      ( 0 admin right ( path ... ) )   via auth.User / ValidatePermission
              ( 1 mask ( path ... ) )          via NewPathMatcher(mask).Match
+             ( 2 ( save ... ) ( path ... ) )  auth.Save of one name once per save, then auth.Get + ValidatePermission;
+                                              two bytes per path: push, pull
    observed  byte string, one byte per path: 1 permitted / 0 refused *)
 From Coq Require Import ZArith List Bool.
 From V Require Import Val Bytes StrGo C16PathMatch.
 Import ListNotations.
 Open Scope Z_scope.
 
+(* ( admin password push pull updatePassword ) *)
+Definition dec_save (v : val) : save :=
+  mkSave (as_bool (nthv 0 v)) (as_bytes (nthv 1 v)) (as_bytes (nthv 2 v)) (as_bytes (nthv 3 v))
+         (as_bool (nthv 4 v)).
+
 Definition dec_case (v : val) : c16case :=
   match as_int (nthv 0 v) with
   | 0 => CUser (as_bool (nthv 1 v)) (as_bytes (nthv 2 v)) (map as_bytes (as_list (nthv 3 v)))
-  | _ => CPattern (as_bytes (nthv 1 v)) (map as_bytes (as_list (nthv 2 v)))
+  | 1 => CPattern (as_bytes (nthv 1 v)) (map as_bytes (as_list (nthv 2 v)))
+  | _ => CHist (map dec_save (as_list (nthv 1 v))) (map as_bytes (as_list (nthv 2 v)))
   end.
 
 Definition enc_bools (l : list bool) : val := VB (enc_answers l).
@@ -35,4 +43,5 @@ Definition x_C16_blank (c : val) : val :=
   match dec_case c with
   | CUser admin rt _ => vbool (right_blank_edges (spec_right admin rt))
   | CPattern mask _ => vbool (item_blank_edges mask)
+  | CHist _ _ => vbool false
   end.
